@@ -2,8 +2,12 @@
 from ekw import ctrl_check
 
 PROPERTY = "C04"
-CLAIMED = False
-NOT_CLAIMED_REASON = "model, correspondence and oracle exist (shared with C02/C03); property theorems not yet proved in this round"
+LEVEL_TEXT = ("Lean theorems over the same system as C02, for ANY event order and interleaving: a purge is commanded only after every consumer ran, after a "
+              "requested value reached the controller, never while a task queued on that host needs it and never while a transfer or fetch commanded from "
+              "that host is unanswered; every transmit/fetch names a source that holds the dataset and still holds it when performed; a purged dataset "
+              "is never needed again; each output is fetched at most once (all nine C04 monitors never fire; InvAll tiers 3/4).")
+LEVEL_NOTE = ("modelled, not verified: scheduler/api.py initialize/plan, scheduler/assign.py build_assignment + the pops of _assignment_heuristic, controller/act.py act/flush_queues, controller/notify.py notify/consider_*, impl.run loop skeleton (Model/Ctrl.lean, one Lean function per Python function). Abstracted as an oracle argument validated for admissibility by the model and supplied from what the real run chose: which (idle worker, computable task) pairs the distance/overhead heuristics and host->component migration pick per round, and which `available` host is the transmit source; theorems quantify over all admissible choices. Executors are abstract (Env; SimBridge mirrors it): a dispatched task runs once its inputs are on its host and publishes outputs in index order; transmit/fetch read the source store; purge is immediate. Hypothesis WF: tasks topologically numbered, inputs duplicate-free, >=1 output per task, requested outputs exist, worker ids distinct (the generator guarantees it).")
+TECHNIQUE = "Lean 4 inductive system invariant (data location vs controller belief) over a small-step transition system + step-by-step state correspondence with the real controller (SimBridge with the same monitors written from the property text)"
 LEAN_PROPS = ["EkwVerif.Props.C04"]
 LEAN_DRIVERS = ["Ctrl"]
 RULE = ctrl_check.RULE
